@@ -901,6 +901,16 @@ pub fn boundary_alias_call(r: &mut Rng) -> Call {
     Call { kind: "run".into(), rules, words, into: vec![], from }
 }
 
+/// words that mix the ASCII spellings of stress and length (`'`, `,`, `:`, `;`) with americanist
+/// letters (`ñ`, `ł`, `¢`, `ƛ`, `λ`): the reader normalises both kinds, the renderer remembers one
+pub fn alt_spelling_call(r: &mut Rng) -> Call {
+    let pool = ["'ña", "ła:", "a,¢a", "ƛa;ta", "'λa", "ña", "'ta", "ta:", "ɲa", "ła", "'ga:"];
+    let n = r.range(2, 5);
+    let words: Vec<String> = (0..n).map(|_| (*r.pick(&pool[..])).to_string()).collect();
+    let rules = if r.chance(1, 3) { vec![] } else { vec![Group::anon(vec![(*r.pick(&["a > o", "V > [+long] / _#", "ɲ > n"][..])).to_string()])] };
+    Call { kind: "run".into(), rules, words, into: vec![], from: vec![] }
+}
+
 /// corpus cross product sample: a test rule applied to a handful of test words
 pub fn corpus_call(d: &Data, r: &mut Rng) -> Call {
     let rule = r.pick(&d.test_rules).clone();
